@@ -30,6 +30,20 @@ type Keyring struct {
 	names   map[string]string // hex address -> name
 	extra   int
 	hashes  map[string]string // hex hash -> token
+	// Raw: name hashes and unknown addresses by their bytes instead of by order of first
+	// appearance, so that values of different replicas / processes are comparable
+	Raw bool
+}
+
+// RawView returns a keyring that shares the keys but renames nothing by appearance order.
+func (kr *Keyring) RawView() *Keyring {
+	names := map[string]string{}
+	for k, n := range kr.names {
+		if len(n) > 0 && (n[0] == 'a' || n == "zero") {
+			names[k] = n
+		}
+	}
+	return &Keyring{seed: kr.seed, wallets: kr.wallets, names: names, hashes: map[string]string{}, Raw: true}
 }
 
 func NewKeyring(seed int64, n int) *Keyring {
@@ -88,6 +102,12 @@ func (kr *Keyring) Name(addr []byte) string {
 	if n, ok := kr.names[k]; ok {
 		return n
 	}
+	if kr.Raw {
+		if len(k) > 16 {
+			return "x" + k[:16]
+		}
+		return "x" + k
+	}
 	kr.extra++
 	n := fmt.Sprintf("x%d", kr.extra)
 	if len(addr) != 20 {
@@ -115,6 +135,12 @@ func (kr *Keyring) Tok(h []byte) string {
 		return "t0"
 	}
 	k := hex.EncodeToString(h)
+	if kr.Raw {
+		if len(k) > 20 {
+			return "h" + k[:20]
+		}
+		return "h" + k
+	}
 	if t, ok := kr.hashes[k]; ok {
 		return t
 	}
